@@ -364,6 +364,7 @@ func c17Docs(cfg Config, lim c17Limits) ([]corpus.Doc, error) {
 	}
 	// a TTML document with hundreds of cues, a transport stream of more than two 64 KiB blocks
 	docs = append(docs, corpus.LargeTTML(root.Derive("large-ttml", 0), 320))
+	docs = append(docs, corpus.Large("stl", root.Derive("large-stl", 0), 80000)) // > 600 blocks, > 64 KiB
 	docs = append(docs, corpus.Doc{Name: "ts-verylong", Format: "ts", Data: corpus.FixedTS(4, "very#long", 700), Cues: -1, Gen: true})
 	// a transport stream long enough for cumulative effects (hundreds of packets)
 	docs = append(docs, corpus.Doc{Name: "ts-long", Format: "ts", Data: corpus.FixedTS(1, "long#stream", 60), Cues: -1, Gen: true})
